@@ -217,6 +217,81 @@ fn cf<T>(cont: bool, x: T) -> ControlFlow<T, T> {
     }
 }
 
+/// Mechanical analysis of a rendered message: its back-quoted segments (text; parsed as JSON by serde_json when it
+/// parses; parsed as a path when it has the shape of one) and the digit runs outside the segments.
+pub fn analyse_msg(msg: &str) -> (J, J) {
+    let parts: Vec<&str> = msg.split('`').collect();
+    let mut segs = Vec::new();
+    let mut outside = String::new();
+    for (i, p) in parts.iter().enumerate() {
+        if i % 2 == 1 && i < parts.len() - 1 + (parts.len() % 2) {
+            let parsed = match serde_json::from_str::<J>(p) {
+                Ok(v) => json!({"z": "some", "v": enc_value(v.into_value())}),
+                Err(_) => json!({"z": "none", "v": crate::enc::rec("null")}),
+            };
+            let num = match p.parse::<f64>() {
+                Ok(f) if !p.is_empty() => json!({"z": "some", "bits": crate::enc::float_bits(f)}),
+                _ => json!({"z": "none", "bits": ""}),
+            };
+            segs.push(json!({"t": p, "json": parsed, "num": num, "path": parse_path(p)}));
+        } else {
+            outside.push_str(p);
+            outside.push(' ');
+        }
+    }
+    (J::Array(segs), J::Array(digit_runs(&outside)))
+}
+
+/// `.key[3].k2` (JsonError) or `key[3].k2` (QueryParamError) read back as steps; keys are [A-Za-z0-9_]+
+fn parse_path(p: &str) -> J {
+    let b: Vec<char> = p.chars().collect();
+    let mut steps = Vec::new();
+    let mut i = 0;
+    let mut first = true;
+    if b.is_empty() {
+        return json!({"z": "none", "steps": []});
+    }
+    while i < b.len() {
+        if b[i] == '[' {
+            let st = i + 1;
+            let mut j = st;
+            while j < b.len() && b[j].is_ascii_digit() {
+                j += 1;
+            }
+            if j == st || j >= b.len() || b[j] != ']' {
+                return json!({"z": "none", "steps": []});
+            }
+            let n: String = b[st..j].iter().collect();
+            match n.parse::<u32>() {
+                Ok(x) => steps.push(json!({"t": "idx", "k": "", "i": x})),
+                Err(_) => return json!({"z": "none", "steps": []}),
+            }
+            i = j + 1;
+        } else {
+            if b[i] == '.' {
+                i += 1;
+            } else if !first {
+                return json!({"z": "none", "steps": []});
+            }
+            let st = i;
+            while i < b.len() && (b[i].is_ascii_alphanumeric() || b[i] == '_') {
+                i += 1;
+            }
+            if i == st {
+                return json!({"z": "none", "steps": []});
+            }
+            let k: String = b[st..i].iter().collect();
+            steps.push(json!({"t": "key", "k": k, "i": 0}));
+        }
+        first = false;
+    }
+    json!({"z": "some", "steps": steps})
+}
+
+fn cps(s: &str) -> Vec<u32> {
+    s.chars().map(|c| c as u32).collect()
+}
+
 /// Shared body of `error` for both recording error types.
 fn rec_error<V: IntoValue>(ety: &str, self_: Option<Vec<u32>>, error: ErrorKind<V>, location: ValuePointerRef) -> (bool, Vec<u32>) {
     let id = fresh_id();
@@ -230,6 +305,15 @@ fn rec_error<V: IntoValue>(ety: &str, self_: Option<Vec<u32>>, error: ErrorKind<
     let a = answer();
     let mut ev = json!({"e": "err", "ety": ety, "id": id, "loc": loc_j(location), "det": det, "self": opt_ids(&self_),
                         "ans": if a { "c" } else { "b" }, "out": out});
+    if want && !is_deep() {
+        let (sj, nj) = analyse_msg(&mj);
+        let (sq, nq) = analyse_msg(&mq);
+        ev["ma"] = json!({"has": true, "sj": sj, "nj": nj, "sq": sq, "nq": nq,
+                          "keycp": cps(ev["det"]["key"].as_str().unwrap_or("")), "valuecp": cps(ev["det"]["value"].as_str().unwrap_or("")),
+                          "acccp": ev["det"]["accepted"].as_array().map(|a| a.iter().map(|x| json!(cps(x.as_str().unwrap_or("")))).collect::<Vec<_>>()).unwrap_or_default()});
+    } else {
+        ev["ma"] = json!({"has": false, "sj": [], "nj": [], "sq": [], "nq": [], "keycp": [], "valuecp": [], "acccp": []});
+    }
     ev["mj"] = json!(mj);
     ev["mq"] = json!(mq);
     push_event(ev);
